@@ -3548,4 +3548,189 @@ theorem whiteSpace_of_ascii (ws : Bytes) (h : ∀ b ∈ ws, isAsciiSpace b = tru
   | nil => exact .nil
   | cons b bs ih => exact .ascii b bs (h b (by simp)) (ih (fun c hc => h c (by simp [hc])))
 
+/-! ## part 10: `Write` does not depend on the order of the glyph list -/
+
+theorem sortByName_eq_insAll {β : Type} (l : List (Bytes × β)) : sortByName l = insAll [] l := rfl
+
+/-- for distinct names `sortByName` is the sorted permutation -/
+theorem sortByName_spec {β : Type} (l : List (Bytes × β)) (hnd : (l.map (·.1)).Nodup) :
+    Sorted (sortByName l) ∧ (sortByName l).Perm l := by
+  obtain ⟨h1, h2⟩ := insAll_spec l [] (by simp [Sorted]) hnd (by intro e _; rfl)
+  rw [sortByName_eq_insAll]
+  exact ⟨h1, by simpa using h2⟩
+
+/-- a sorted list is left as it is: for the values the reader returns `fontBBox` folds over the
+list itself -/
+theorem sortByName_of_sorted {β : Type} (l : List (Bytes × β)) (hs : Sorted l) : sortByName l = l := by
+  rw [sortByName_eq_insAll]
+  have := insAll_append [] l (by simpa using hs)
+  simpa using this
+
+theorem sortByName_perm {β : Type} (l1 l2 : List (Bytes × β)) (hp : l1.Perm l2)
+    (hnd : (l2.map (·.1)).Nodup) : sortByName l1 = sortByName l2 := by
+  have hnd1 : (l1.map (·.1)).Nodup := (List.Perm.nodup_iff (hp.map _)).mpr hnd
+  obtain ⟨a1, a2⟩ := sortByName_spec l1 hnd1
+  obtain ⟨b1, b2⟩ := sortByName_spec l2 hnd
+  exact sorted_eq_of_perm _ _ a1 b1 (a2.trans (hp.trans b2.symm))
+
+theorem lookup_mem_nodup {β : Type} (k : Bytes) (v : β) (l : List (Bytes × β))
+    (hnd : (l.map (·.1)).Nodup) (h : (k, v) ∈ l) : lookup k l = some v := by
+  induction l with
+  | nil => simp at h
+  | cons e es ih =>
+    obtain ⟨k', v'⟩ := e
+    have hnd' := List.nodup_cons.mp hnd
+    unfold lookup
+    simp only [List.mem_cons, Prod.mk.injEq] at h
+    by_cases hk : k' = k
+    · rw [if_pos hk]
+      rcases h with h | h
+      · rw [h.2]
+      · exfalso
+        apply hnd'.1
+        exact List.mem_map.mpr ⟨(k, v), h, hk.symm⟩
+    · rw [if_neg hk]
+      rcases h with h | h
+      · exact absurd h.1.symm hk
+      · exact ih hnd'.2 h
+
+theorem lookup_perm {β : Type} (k : Bytes) (l1 l2 : List (Bytes × β)) (hp : l1.Perm l2)
+    (hnd : (l2.map (·.1)).Nodup) : lookup k l1 = lookup k l2 := by
+  have hnd1 : (l1.map (·.1)).Nodup := (List.Perm.nodup_iff (hp.map _)).mpr hnd
+  cases h2 : lookup k l2 with
+  | none =>
+    rw [lookup_none_iff] at h2 ⊢
+    exact fun e he => h2 e (hp.mem_iff.mp he)
+  | some v =>
+    exact lookup_mem_nodup k v l1 hnd1 (hp.mem_iff.mpr (lookup_some_mem k v l2 h2))
+
+/-! the order of `GlyphList` is total and antisymmetric, so sorting has one result -/
+
+theorem nameLe_total (a b : Bytes) : (Query.nameLe a b || Query.nameLe b a) = true := by
+  unfold Query.nameLe
+  cases h : Query.nameLt b a with
+  | false => rfl
+  | true => rw [nameLt_asymm _ _ h]; rfl
+
+theorem nameLe_antisymm (a b : Bytes) (h1 : Query.nameLe a b = true) (h2 : Query.nameLe b a = true) : a = b := by
+  unfold Query.nameLe at h1 h2
+  simp only [Bool.not_eq_true'] at h1 h2
+  cases hd : decide (a = b) with
+  | true => exact of_decide_eq_true hd
+  | false =>
+    have hne : a ≠ b := of_decide_eq_false hd
+    have := nameLt_total a b h2 hne
+    rw [this] at h1; exact absurd h1 (by decide)
+
+theorem nameLe_trans (a b c : Bytes) (h1 : Query.nameLe a b = true) (h2 : Query.nameLe b c = true) :
+    Query.nameLe a c = true := by
+  unfold Query.nameLe at h1 h2 ⊢
+  simp only [Bool.not_eq_true'] at h1 h2 ⊢
+  cases hca : Query.nameLt c a with
+  | false => rfl
+  | true =>
+    exfalso
+    by_cases hab : a = b
+    · subst hab; rw [hca] at h2; exact absurd h2 (by decide)
+    · have hlt : Query.nameLt a b = true := nameLt_total b a h1 (fun e => hab e.symm)
+      have := nameLt_trans c a b hca hlt
+      rw [this] at h2; exact absurd h2 (by decide)
+
+theorem keyLe_total (enc : List Bytes) (a b : Bytes) : (Query.keyLe enc a b || Query.keyLe enc b a) = true := by
+  unfold Query.keyLe
+  dsimp only
+  by_cases h : Query.orderOf enc a = Query.orderOf enc b
+  · simp only [h, bne_self_eq_false, Bool.false_eq_true, if_false]
+    exact nameLe_total a b
+  · have h' : ¬ Query.orderOf enc b = Query.orderOf enc a := fun e => h e.symm
+    simp only [bne_iff_ne, ne_eq, h, h', not_false_eq_true, if_true, Bool.or_eq_true, decide_eq_true_eq]
+    omega
+
+theorem keyLe_antisymm (enc : List Bytes) (a b : Bytes) (h1 : Query.keyLe enc a b = true)
+    (h2 : Query.keyLe enc b a = true) : a = b := by
+  unfold Query.keyLe at h1 h2
+  dsimp only at h1 h2
+  by_cases h : Query.orderOf enc a = Query.orderOf enc b
+  · simp only [h, bne_self_eq_false, Bool.false_eq_true, if_false] at h1 h2
+    exact nameLe_antisymm a b h1 h2
+  · have h' : ¬ Query.orderOf enc b = Query.orderOf enc a := fun e => h e.symm
+    simp only [bne_iff_ne, ne_eq, h, h', not_false_eq_true, if_true, decide_eq_true_eq] at h1 h2
+    omega
+
+theorem keyLe_trans (enc : List Bytes) (a b c : Bytes) (h1 : Query.keyLe enc a b = true)
+    (h2 : Query.keyLe enc b c = true) : Query.keyLe enc a c = true := by
+  unfold Query.keyLe at h1 h2 ⊢
+  dsimp only at h1 h2 ⊢
+  by_cases hab : Query.orderOf enc a = Query.orderOf enc b
+  · by_cases hbc : Query.orderOf enc b = Query.orderOf enc c
+    · have hac : Query.orderOf enc a = Query.orderOf enc c := hab.trans hbc
+      simp only [hab, hbc, bne_self_eq_false, Bool.false_eq_true, if_false] at h1 h2 ⊢
+      exact nameLe_trans a b c h1 h2
+    · have hac : ¬ Query.orderOf enc a = Query.orderOf enc c := fun e => hbc (hab.symm.trans e)
+      simp only [bne_iff_ne, ne_eq, hbc, not_false_eq_true, if_true, decide_eq_true_eq] at h2
+      simp only [bne_iff_ne, ne_eq, hac, not_false_eq_true, if_true, decide_eq_true_eq]
+      omega
+  · simp only [bne_iff_ne, ne_eq, hab, not_false_eq_true, if_true, decide_eq_true_eq] at h1
+    by_cases hbc : Query.orderOf enc b = Query.orderOf enc c
+    · have hac : ¬ Query.orderOf enc a = Query.orderOf enc c := fun e => hab (e.trans hbc.symm)
+      simp only [bne_iff_ne, ne_eq, hac, not_false_eq_true, if_true, decide_eq_true_eq]
+      omega
+    · simp only [bne_iff_ne, ne_eq, hbc, not_false_eq_true, if_true, decide_eq_true_eq] at h2
+      have hac : ¬ Query.orderOf enc a = Query.orderOf enc c := by omega
+      simp only [bne_iff_ne, ne_eq, hac, not_false_eq_true, if_true, decide_eq_true_eq]
+      omega
+
+theorem mergeSort_keyLe_perm (enc : List Bytes) (l1 l2 : List Bytes) (hp : l1.Perm l2) :
+    l1.mergeSort (Query.keyLe enc) = l2.mergeSort (Query.keyLe enc) := by
+  have s1 := List.pairwise_mergeSort (keyLe_trans enc) (keyLe_total enc) l1
+  have s2 := List.pairwise_mergeSort (keyLe_trans enc) (keyLe_total enc) l2
+  have p : (l1.mergeSort (Query.keyLe enc)).Perm (l2.mergeSort (Query.keyLe enc)) :=
+    (List.mergeSort_perm l1 _).trans (hp.trans (List.mergeSort_perm l2 _).symm)
+  exact List.Perm.eq_of_pairwise (le := fun a b => Query.keyLe enc a b = true)
+    (fun a b _ _ h1 h2 => keyLe_antisymm enc a b h1 h2) s1 s2 p
+
+theorem glyphList_perm (enc : List Bytes) (k1 k2 : List Bytes) (hp : k1.Perm k2) :
+    Query.glyphList k1 enc = Query.glyphList k2 enc := by
+  unfold Query.glyphList
+  dsimp only
+  rw [hp.contains_eq]
+  split
+  · exact mergeSort_keyLe_perm enc _ _ hp
+  · exact mergeSort_keyLe_perm enc _ _ (hp.append_right _)
+
+theorem filterMap_congr' {α β : Type} (l : List α) (f g : α → Option β) (h : ∀ a ∈ l, f a = g a) :
+    l.filterMap f = l.filterMap g := by
+  induction l with
+  | nil => rfl
+  | cons a as ih =>
+    rw [List.filterMap_cons, List.filterMap_cons, h a (by simp), ih (fun b hb => h b (by simp [hb]))]
+
+theorem fontBBox_perm (m : Metrics) (G : List (Bytes × Glyph)) (hp : G.Perm m.glyphs)
+    (hnd : (m.glyphs.map (·.1)).Nodup) : fontBBox { m with glyphs := G } = fontBBox m := by
+  unfold fontBBox
+  dsimp only
+  rw [sortByName_perm G m.glyphs hp hnd]
+
+theorem glyphLines_perm (m : Metrics) (G : List (Bytes × Glyph)) (hp : G.Perm m.glyphs)
+    (hnd : (m.glyphs.map (·.1)).Nodup) : glyphLines { m with glyphs := G } = glyphLines m := by
+  unfold glyphLines
+  dsimp only
+  rw [glyphList_perm m.encoding _ _ (hp.map _)]
+  apply filterMap_congr'
+  intro name _
+  rw [lookup_perm name G m.glyphs hp hnd]
+
+/-- `Write` is a function of the glyph *map*: listing the glyphs in another order gives the same text -/
+theorem write_perm (m : Metrics) (G : List (Bytes × Glyph)) (hp : G.Perm m.glyphs)
+    (hnd : (m.glyphs.map (·.1)).Nodup) : write { m with glyphs := G } = write m := by
+  unfold write writeLinesWith
+  rw [glyphLines_perm m G hp hnd]
+  have hh : ∀ ia, headLines { m with glyphs := G } ia = headLines m ia := by
+    intro ia
+    unfold headLines
+    dsimp only
+    rw [fontBBox_perm m G hp hnd, hp.length_eq]
+  rw [hh]
+  rfl
+
 end PsVerif.Proofs.AFM
